@@ -131,6 +131,11 @@ def nfa_mutants(N, rng, k=3):
 
 
 # ------------------------------------------------------------------ instances
+def _mkdfa(Q, S, delta, q0, F):
+    from gambatools.dfa import DFA
+    return DFA(set(Q), set(S), dict(delta), q0, set(F))
+
+
 def small_dfa(rng, k=None, S="ab", prefix="s"):
     return U.random_dfa(rng, k or rng.randint(1, 3), S, prefix=prefix)
 
@@ -194,15 +199,33 @@ def inst_minimal(rng, algo="dfa_quotient"):
     import gambatools.dfa_algorithms as da
     import gambatools.notebook_dfa as nd
     D = small_dfa(rng, rng.randint(1, 4), rng.choice(["a", "ab"]))
+    length = rng.choice([3, 4])
+    deep = rng.random() < 0.3
+    if deep:
+        # a language whose minimal DFA has MORE states than the bound is long: "at least k letters" / "length = r mod m"
+        # with k, m > length - smaller automata agree with it on every word the checker looks at
+        k = length + rng.randint(1, 3)
+        if rng.random() < 0.5:
+            D = _mkdfa(["s%d" % i for i in range(k + 1)], "a", {("s%d" % i, "a"): "s%d" % min(i + 1, k) for i in range(k + 1)},
+                           "s0", ["s%d" % k])
+        else:
+            D = _mkdfa(["s%d" % i for i in range(k)], "a", {("s%d" % i, "a"): "s%d" % ((i + 1) % k) for i in range(k)},
+                           "s0", ["s%d" % (k - 1)])
     own = getattr(da, algo)(D)
     t = da.print_dfa(D)
-    length = rng.choice([3, 4])
 
     def submit(A):
         v, cex, exc, out = run_checker(nd.check_dfa_minimal, t, da.print_dfa(A), length)
         return {"family": "minimal", "d1": ab.dfa(D), "ans": ab.dfa(A), "length": length, "verdict": v, "cex": cex,
                 "exc": exc, "out": ab.enc(out), "illformed": False}
     muts = dfa_mutants(own, rng, 4) + [("original", D)]
+    if deep:
+        n = len(D.Q)
+        muts += [("empty_language", _mkdfa(["e"], "a", {("e", "a"): "e"}, "e", [])),
+                 ("one_state_less", _mkdfa(["s%d" % i for i in range(n - 1)], "a",
+                                               {("s%d" % i, "a"): "s%d" % (min(i + 1, n - 2) if "s%d" % (n - 1) == D.delta["s%d" % (n - 1), "a"]
+                                                                           else (i + 1) % (n - 1)) for i in range(n - 1)},
+                                               "s0", ["s%d" % (n - 2)]))]
     return own, submit, muts
 
 
@@ -354,6 +377,12 @@ def inst_lang_file(rng):
     import gambatools.notebook as nb
     length = rng.choice([2, 3])
     D = small_dfa(rng, None, "ab")
+    unary = rng.random() < 0.35
+    if unary:
+        # unary 3-state automata (tails and cycles): two of them can agree on every word up to their number of states
+        # and differ on a word of length 4 - below the bound 5 of the second question
+        D = small_dfa(rng, 3, "a")
+        length = 2
     path = write("ref_%d.dfa" % rng.randrange(10 ** 9), da.print_dfa(D))
     N = U.random_nfa(rng, rng.randint(1, 3), "ab", eps="ε", prefix="q")
 
@@ -379,7 +408,9 @@ def inst_lang_file(rng):
         finally:
             length = keep
     muts = dfa_mutants(D, rng, 3) + [("nfa", N)]
-    raws = [("other_length/%d" % i, (lambda M=M: submit_other_length(M))) for i, (_, M) in enumerate(muts[:3])]
+    if unary:
+        muts = [("unary/%d" % i, small_dfa(rng, 3, "a")) for i in range(8)] + muts
+    raws = [("other_length/%d" % i, (lambda M=M: submit_other_length(M))) for i, (_, M) in enumerate(muts[:8 if unary else 3])]
     return D, submit, muts, raws
 
 
